@@ -47,7 +47,7 @@ pub struct GrammarSim;
 
 const VERSIONS: [&str; 5] = ["HTTP/0.9", "HTTP/1.0", "HTTP/1.1", "HTTP/2.0", "HTTP/3.0"];
 const METHODS: [&str; 9] = ["GET", "POST", "HEAD", "CONNECT", "OPTIONS", "TRACE", "PATCH", "PURGE", "M-SEARCH"];
-const URIS: [&str; 26] = [
+const URIS: [&str; 34] = [
     "http://a.test/r/1/x",
     "http://a.test",
     "http://a.test/",
@@ -74,6 +74,15 @@ const URIS: [&str; 26] = [
     "http://a.test:65535/",
     "http://user@a.test/",
     "https://xn--nxasmq6b.test/",
+    // empty path with a query, root path with a query, scheme spelt in capitals, odd path shapes
+    "http://a.test?x=1",
+    "https://a.test:8443?x=1&y=2",
+    "http://a.test/?x=1",
+    "HTTP://a.test/r/1/x",
+    "Wss://a.test/chat?x",
+    "http://a.test//double//slash",
+    "http://a.test/%2F%3F?%23",
+    "http://a.test/r/1/x?",
 ];
 
 fn version(s: &str) -> http::Version {
